@@ -483,3 +483,66 @@ def exact_read(ctx):
                 else:
                     ctx.violation(key, f.loc(bi), 'read_exact into an unsliced buffer (%s): length is not a decoded '
                                   'field' % expr_str(dst)[:50])
+
+
+@rule('COUNTER-TRUTH', ['C05', 'C02'], floor=5)
+def counter_truth(ctx):
+    """Byte counters of pass-through wrappers count what the inner call reported, not what was
+    offered: in every impl Read::read / Write::write that forwards the caller's buffer to an inner
+    read/write and adds to a counter (field store or Cell::set), the addend is the returned count."""
+    F = ctx.facts
+    n = 0
+    for f in F.fns:
+        if not (f.impl and last_seg(f.impl.get('trait')) in ('Read', 'Write') and f.name in ('read', 'write')):
+            continue
+        prov = Prov(f)
+        inner = []
+        for bi, t, c in f.calls():
+            if (is_trait_call(c, READ_TRAITS, 'read') or is_trait_call(c, WRITE_TRAITS, 'write')) and len(t['args']) > 1:
+                d = prov.operand(t['args'][1], 0, '%d:T' % bi)
+                if d[0] == 'param' and d[1] == 2 and not t['dest']['p']:
+                    inner.append((bi, t))
+        if len(inner) != 1:
+            continue
+        ib, it = inner[0]
+        nl = scalar_count_locals(f, it['dest']['l'])
+        # counter updates: self-referential field stores and Cell::set(get() + x)
+        updates = []
+        for bi, b in enumerate(f.blocks):
+            if b['cleanup']:
+                continue
+            for si, s in enumerate(b['stmts']):
+                if s['k'] == 'assign' and s['lhs']['l'] == 1 and s['lhs']['p'] and s['rv']['r'] in ('use', 'bin'):
+                    e = prov.rvalue(s['rv'], 0, '%d:%d' % (bi, si))
+                    adds = [x for x in expr_walk(e) if x[0] == 'bin' and x[1].startswith('Add')]
+                    if adds:
+                        updates.append((bi, adds[0]))
+            t = b['term']
+            if t['k'] == 'call':
+                c = callee_of(t)
+                if c and strip_generics(c['path']).endswith('Cell::set') and len(t['args']) > 1:
+                    e = prov.operand(t['args'][1], 0, '%d:T' % bi)
+                    adds = [x for x in expr_walk(e) if x[0] == 'bin' and x[1].startswith('Add')]
+                    if adds:
+                        updates.append((bi, adds[0]))
+        for ub, add in updates:
+            n += 1
+            key = '%s:counter-adds-returned-count' % f.key
+            def from_count(x):
+                while x[0] == 'cast':
+                    x = x[2]
+                if x[0] == 'local' and x[1] in nl:
+                    return True
+                return any(y[0] == 'call' and len(y) > 3 and y[3] is it for y in expr_walk(x)) and \
+                    not any(y[0] == 'len' or (y[0] == 'call' and y[1].endswith('::len')) for y in expr_walk(x))
+            ok = from_count(add[2]) or from_count(add[3])
+            bad_len = any((y[0] == 'len' or (y[0] == 'call' and y[1].endswith('::len'))) and
+                          any(z[0] == 'param' and z[1] == 2 for z in expr_walk(y)) for side in (add[2], add[3]) for y in expr_walk(side))
+            if ok and not bad_len:
+                ctx.ok(key, f.loc(ub), 'counter += count returned by the inner %s' % f.name)
+            else:
+                ctx.violation(key, f.loc(ub), 'the byte counter is advanced by %s instead of the count the inner %s returned: after a '
+                              'short %s the counter (which feeds padding, index sizes or member sizes) is wrong' % (
+                                  expr_str(add[3])[:40], f.name, f.name))
+    if n == 0:
+        ctx.anchor_missing('counting pass-through wrappers')
